@@ -132,7 +132,7 @@ def driver(prop, tier, seed, devs):
         pins.append(e["result"])
     if d["rc"] != 0:
         out["coverage"]["suite_note"] = "repository tests did not all pass while recording (rc=%s)" % d["rc"]
-    recs, cnt, st = ptrace.judge_scripts(scripts, devs)
+    recs, cnt, st = ptrace.judge_scripts(scripts, devs, roundtrip=(prop == "C04"))
     if st["error"]:
         out["machinery"].append("SieveTrace on suite scripts: %s" % st["error"])
     # pins as axioms: only when the suite itself passed (the code agrees with the pin)
@@ -174,13 +174,51 @@ def driver(prop, tier, seed, devs):
             data = R.render(toks, rng.choice(LAYS))[0]
             batch.extend(byte_mutants(data, rng, nb))
     batch = list(dict.fromkeys(batch))
-    recs, cnt, st = ptrace.judge_scripts(batch, devs)
+    if prop == "C04":
+        # value generator aimed at quoting edge cases: every value class in every string position of a few carriers
+        vcs = sorted(R.VALUE_CLASSES)
+        for v in vcs:
+            for form in ("str", "ml"):
+                tv = (form, v)
+                for carrier in ([("id", "redirect"), tv, ("semi", "")],
+                                [("id", "if"), ("id", "header"), ("tag", ":is"), ("lb", ""), ("str", v), ("comma", ""), ("str", "x"), ("rb", ""), tv, ("lc", ""), ("rc", "")],
+                                [("id", "require"), ("str", "vacation"), ("semi", ""), ("id", "vacation"), ("tag", ":subject"), tv, ("tag", ":addresses"), ("lb", ""), ("str", v), ("rb", ""), tv, ("semi", "")],
+                                [("id", "if"), ("id", "not"), ("id", "exists"), ("lb", ""), ("str", v), ("comma", ""), ("str", v), ("rb", ""), ("lc", ""), ("id", "if"), ("id", "true"), ("lc", ""), ("id", "redirect"), tv, ("semi", ""), ("rc", ""), ("rc", "")]):
+                    for lay in ("space", "crlf"):
+                        batch.append(R.render(carrier, lay)[0])
+        batch = list(dict.fromkeys(batch))
+    recs, cnt, st = ptrace.judge_scripts(batch, devs, roundtrip=(prop == "C04"))
     if st["error"]:
         out["machinery"].append("SieveTrace on generated scripts: %s" % st["error"])
     if cnt["missing"]:
         out["machinery"].append("SieveTrace returned no verdict for %d traces" % cnt["missing"])
     k, v = classify(recs, prop, devs, "generated")
     merge(out, k, v)
+    if prop == "C04":
+        # the serialised outputs themselves are scripts: TLC (not the code) decides that they are valid and
+        # that the code reads them as the reference does
+        from . import sieve_impl as I
+        outs_txt = []
+        p = I.new_parser()
+        for s in batch[: (3000 if tier == "quick" else 40000)]:
+            o = I.run_parse(p, s)
+            if o["verdict"] is True:
+                try:
+                    outs_txt.append(I.tosieve_text(p.result).encode("utf-8"))
+                except Exception:  # noqa
+                    pass
+        outs_txt = list(dict.fromkeys(outs_txt))
+        recs2, cnt2, st2 = ptrace.judge_scripts(outs_txt, devs)
+        for r in recs2:
+            bad = {kk: vv for kk, vv in r["failed"].items() if kk in ("C01", "C03")}
+            if bad and not (r["expl"] and all(d in devs for d in r["expl"])):
+                r = dict(r)
+                r["failed"] = {"C04": "serialised output judged by the reference: %s" % bad}
+                out["viols"].append(("serialised", r))
+        out["states"] += st2["distinct"]
+        out["transitions"] += st2["states"]
+        out["parses"] += cnt2["parses"]
+        out["coverage"]["serialised_outputs_judged_by_tlc"] = dict(cnt2)
     out["states"] += st["distinct"] + simstates
     out["transitions"] += st["states"] + simstates
     out["parses"] += cnt["parses"]
